@@ -176,3 +176,47 @@ pub fn dispatch(cmd: &str) -> u32 {
 pub fn is_write(cmd: &str) -> bool {
     if cmd == "SCRIPT" { false } else { matches!(cmd, "SET" | "DEL") }
 }
+
+// ---- R-REMOVE-ITER twins (C03) ------------------------------------------------------------
+pub fn rm_bad_forward_skip(list: &mut std::collections::VecDeque<Vec<u8>>, e: &[u8], mut n: usize) -> usize {
+    let mut removed = 0;
+    let mut i = 0;
+    while i < list.len() && n > 0 {
+        if list[i] == e {
+            list.remove(i);
+            n -= 1;
+            removed += 1;
+        }
+        i += 1;
+    }
+    removed
+}
+
+pub fn rm_ok_forward_else(list: &mut std::collections::VecDeque<Vec<u8>>, e: &[u8], mut n: usize) -> usize {
+    let mut removed = 0;
+    let mut i = 0;
+    while i < list.len() && n > 0 {
+        if list[i] == e {
+            list.remove(i);
+            n -= 1;
+            removed += 1;
+        } else {
+            i += 1;
+        }
+    }
+    removed
+}
+
+pub fn rm_ok_backward(list: &mut std::collections::VecDeque<Vec<u8>>, e: &[u8], mut n: usize) -> usize {
+    let mut removed = 0;
+    let mut i = list.len();
+    while i > 0 && n > 0 {
+        i -= 1;
+        if list[i] == e {
+            list.remove(i);
+            n -= 1;
+            removed += 1;
+        }
+    }
+    removed
+}
